@@ -523,7 +523,8 @@ Definition c18_class (ec : ecase) : option N :=
 Definition engine_violations_c18 (cs : list ecase) : list (N * N) := classify c18_class 0 cs.
 
 (* ---- C02 (engine level): pages are walked from index 0, one step at a time -------------------------- *)
-(* observed: whenever the navigation stack changed during a request the page index is 0 again;
+(* observed: whenever the navigation stack changed during a request the page index starts from 0 again
+   (it can only have been advanced by lateral moves executed in the same request);
    without a change of stack the index moves by at most one page per lateral move executed *)
 Fixpoint count_lateral (es : list ev) : N :=
   match es with
@@ -539,7 +540,7 @@ Fixpoint c02e_steps (prev : option osnap) (steps : list (bytes * eobs)) (evs : l
        if list_eqb bytes_eqb (os_path a) (os_path b)
        then (* same stack: |delta idx| bounded by the lateral moves executed, or the node was re-entered *)
             (os_idx b =? 0) || ((os_idx b <=? os_idx a + count_lateral es) && (os_idx a <=? os_idx b + count_lateral es))
-       else (os_idx b =? 0)
+       else (os_idx b <=? count_lateral es)   (* 0 unless lateral moves were executed after the change of stack *)
      | None, Some b => (os_idx b =? 0) || (0 <? count_lateral es)
      | _, _ => true
      end) && c02e_steps (eo_snap o) steps' evs'
